@@ -20,6 +20,7 @@ fn soup(rep: &mut Rep, seed: u64, ops: usize) {
         trace.push(op);
         let junk = rng.bytes(8);
         let n = rng.below(9) as usize;
+        let big = rng.chance(1, 4);
         let fail = *rng.pick(&FAIL_KINDS);
         let cuts = rng.next() as u32;
         let intr = rng.chance(1, 3);
@@ -29,7 +30,7 @@ fn soup(rep: &mut Rep, seed: u64, ops: usize) {
             let mut rd = FragReader::new(&junk, n.min(junk.len()), cuts, intr, fail);
             match op {
                 0 => {
-                    let mut d = rng.bytes(n * 7);
+                    let mut d = rng.bytes(if big { n * 77 } else { n * 7 });
                     vs.decrypt(&mut d)
                 }
                 1 => {
@@ -45,7 +46,7 @@ fn soup(rep: &mut Rep, seed: u64, ops: usize) {
                     let _ = vc.read_and_decrypt_server_header(&mut rd);
                 }
                 5 => {
-                    let mut d = rng.bytes(n * 7);
+                    let mut d = rng.bytes(if big { n * 77 } else { n * 7 });
                     ts.decrypt(&mut d)
                 }
                 6 => {
@@ -61,7 +62,7 @@ fn soup(rep: &mut Rep, seed: u64, ops: usize) {
                     let _ = tc.read_and_decrypt_server_header(&mut rd);
                 }
                 10 => {
-                    let mut d = rng.bytes(n * 7);
+                    let mut d = rng.bytes(if big { n * 77 } else { n * 7 });
                     ws.decrypt(&mut d)
                 }
                 11 => {
@@ -71,7 +72,7 @@ fn soup(rep: &mut Rep, seed: u64, ops: usize) {
                     let _ = ws.read_and_decrypt_client_header(&mut rd);
                 }
                 13 => {
-                    let mut d = rng.bytes(n * 7);
+                    let mut d = rng.bytes(if big { n * 77 } else { n * 7 });
                     wc.decrypt(&mut d)
                 }
                 14 => {
@@ -121,7 +122,7 @@ pub fn run(tier: &str, seed: u64) -> Rep {
     total.rule = "header byte soup".to_string();
     let (n, ops): (usize, usize) = match tier {
         "quick" => (4000, 300),
-        "thorough" => (100_000, 300),
+        "thorough" => (1_000_000, 300),
         _ => (1, 40),
     };
     let shards = if tier == "miri" { 1 } else { 64 };
